@@ -887,3 +887,17 @@ LEAN_TARGETS = LEAN_TARGETS + ["OdxVerif.Props.C05Nested3"]
 THEOREMS = THEOREMS + ["OdxVerif.Codec." + t for t in [
     "C05_truncated_rejected_described3", "C05_truncated_compu_leaf", "C05_truncated_dtc_leaf", "Reads.ofConvValue", "Reads.ofDtcValue",
     "Described3.decOk"]]
+# --- W26 (nested tier, second part): the ghost-instrumented decoder — "nothing is invented" for the whole decoder model ---------
+LEAN_TARGETS = LEAN_TARGETS + ["OdxVerif.Props.C05Nested2"]
+THEOREMS = THEOREMS + ["OdxVerif.Codec." + t for t in [
+    "C05_log_erasure", "C05_log_erasure_site", "C05_log_erasure_param", "C05_log_erasure_params",
+    "C05_no_invention_all", "C05_truncated_rejected_all", "C05_requests_dichotomy",
+    "C05_no_invention_site", "C05_truncated_rejected_log_site", "C05_probe_requests_are_exempt",
+    "erases_decode_all", "lgood_decode_all", "c5Req_log", "c5Req_log_ok", "c5Req_ok", "c5Jump_log", "c5Probe_log", "c5Probe_ok",
+    "C05_log_grows_site", "grows_decode_all", "c5Bs_log", "c5Bs_jump", "c5Mm_short", "c5Mm_ok", "c5Ld_log", "c5Mr_log", "c5Em_log",
+    "C05_request_local", "extractCore_local", "C05_truncated_param_described2", "C05_truncated_minmax_described2",
+    "C05_truncated_leading_described2", "C05_truncated_matching_described2", "C05_truncated_reserved_described2",
+    "C05_truncated_minmax_described2_example", "C05_truncated_matching_described2_example",
+    "C05_truncated_leading_described2_example", "C05_truncated_reserved_described2_example",
+    "C05_leaf_requests_are_reads", "decodeDctL_requests", "extractAtomicL_strict",
+    "C05_requests_are_reads", "C05_short_request_is_reads", "cov_decode_all", "flag_decode_all", "decodeMessageL_log"]]
